@@ -371,7 +371,12 @@ def rand_sweep(cirq, rng, depth):
         key = rng.choice(['a', 'b', 'c', 'd'])
         k = rng.random()
         if k < 0.4:
-            return cirq.Points(key, [rng.choice([0.0, 0.5, -1.25, 3.0, 0.1, 1e-3]) for _ in range(rng.choice([0, 1, 2, 3, 5]))])
+            md = None
+            if rng.random() < 0.3:
+                import cirq_google as cg_
+
+                md = cg_.study.DeviceParameter(path=['q', rng.choice(['x', 'y'])], idx=rng.choice([None, 0, 1, 3]), units=rng.choice([None, 'GHz']))
+            return cirq.Points(key, [rng.choice([0.0, 0.5, -1.25, 3.0, 0.1, 1e-3]) for _ in range(rng.choice([0, 1, 2, 3, 5]))], metadata=md)
         if k < 0.8:
             return cirq.Linspace(key, rng.choice([0.0, -1.0, 0.25]), rng.choice([1.0, 2.5, 0.0]), rng.choice([1, 2, 3, 7]))
         if k < 0.9:
@@ -422,6 +427,14 @@ def check_sweeps(ctx, cirq, cg, n):
             want, got = tuples_of(s), tuples_of(back)
             tol = 1e-12 if f64 else 1e-6
             same = len(want) == len(got) and all(len(a) == len(b) and all(ka == kb and abs(va - vb) <= tol * max(1, abs(va)) for (ka, va), (kb, vb) in zip(a, b)) for a, b in zip(want, got))
+            def metas(sw):
+                if hasattr(sw, 'metadata'):
+                    return [repr(getattr(sw, 'metadata', None))]
+                kids = getattr(sw, 'sweeps', None) or getattr(sw, 'factors', None) or []
+                return [m for k_ in kids for m in metas(k_)]
+
+            if metas(back) != metas(s):
+                ctx.report_witness('sweep:metadata', 'sweep metadata (device parameters) is not preserved by the sweep round trip', dict(rep, impl_out=[metas(back)], spec_out=[metas(s)]))
             if not same or len(back) != len(s) or back.keys != s.keys:
                 ctx.report_witness('sweep:roundtrip', 'sweep_from_proto(sweep_to_proto(s)) does not denote the assignments of s', dict(rep, impl_out=[repr(back), got[:6]], spec_out=[repr(s), want[:6]]))
         # run context
